@@ -1,6 +1,8 @@
 package types
 
 import (
+	"errors"
+
 	"cosmossdk.io/math"
 	sdk "github.com/cosmos/cosmos-sdk/types"
 )
@@ -22,6 +24,11 @@ func (p *Pool) ExitPool(ctx sdk.Context, oracleKeeper OracleKeeper, accountedPoo
 // updates the pool's liquidity and totalShares.
 func (p *Pool) processExitPool(_ sdk.Context, exitingCoins sdk.Coins, exitingShares math.Int) error {
 	balances := p.GetTotalPoolLiquidity().Sub(exitingCoins...)
+	// Coins.Sub drops denoms whose amount becomes zero: such an asset would keep its old
+	// balance in the pool while the tokens leave it
+	if len(balances) != len(p.PoolAssets) {
+		return errors.New("exit would take a pool asset balance to zero")
+	}
 	if err := p.UpdatePoolAssetBalances(balances); err != nil {
 		return err
 	}
